@@ -5,6 +5,7 @@ from harness.gen.sessions import gen_case, SidCounter
 THEOREM_NOTE = ("Props/C03.lean + Props/C03b.lean: routing (innermost level owning the source, else the active one); the active queue is the top level; every take is from "
                 "the top level; signals held in non-top levels are never removed or reordered and their source sets are fixed; the _mainloop activation of a level returns "
                 "only after that level was closed (under the history hypothesis WFClose); closing restores the enclosing loop (under WFClose and WFDrain)")
+LEAN_MODULES = ["C03", "C03b"]
 ASSUMPTIONS = ASSUME_SESSION + ["known finding K1 (second close_loop / execute_new_loop before the innermost _mainloop regained control) is excluded from the blocks/resumes clauses by the history hypotheses WFClose/WFDrain, evaluated by the model per case"]
 RULE = ("loop-mode programs with nesting depth up to 5, sources registered at various levels / nowhere / several, enqueues for outer sources from inner handlers, closes at "
         "every position; generic loop/app sessions; oracle: every handler invocation's level against the routing rule recomputed from the public-API log; execute_new_loop / "
